@@ -248,14 +248,18 @@ def sign_change_near(F, ps, r, tol, lo, hi):
 def gen_bracket_case(rng, underflow=False):
     """returns (family, params, a, b, info) with a sign change / end-point root / same signs as drawn"""
     mode = rng.choice(["interior", "interior", "interior", "endpoint", "samesign", "huge", "tiny", "multi", "rational",
-                       "rational", "reversed", "exact_tol"] if not underflow else ["interior", "samesign", "multi", "reversed"])
+                       "rational", "reversed", "exact_tol", "large", "large"] if not underflow else ["interior", "samesign", "multi", "reversed"])
     fam = 1
     scale = 1.0
     if mode == "huge":
         scale = pow2(rng, 60, 300)
     elif mode == "tiny":
         scale = pow2(rng, -300, -60)
+    if mode == "large":          # simple roots of magnitude 1e3 .. 1e6, both signs, absolute default-size tolerances
+        scale = float(rng.randrange(1000, 1000001))
     r1 = rng.randrange(-64, 65) / 16.0
+    if mode == "large" and abs(r1) < 0.5:
+        r1 = rng.choice([-1.0, 1.0, -2.5, 3.0])
     if mode == "multi":   # three roots, odd number inside the bracket or all inside
         r2 = r1 + rng.randrange(1, 40) / 8.0
         r3 = r2 + rng.randrange(1, 40) / 8.0
@@ -282,6 +286,15 @@ def gen_bracket_case(rng, underflow=False):
         a = math.floor(r1) - rng.choice([0.0, 1.0, 3.0]); b = a + rng.choice([2.0, 4.0, 8.0, 16.0])
         while not (a < r1 < b): b += 4.0
     s = rng.choice([1.0, -1.0]) * pow2(rng, -3, 3)
+    if mode == "large" and rng.random() < 0.7:
+        # cubic s (x - r)(x^2 + c) expanded in floats with a non-dyadic root of magnitude 1e3..1e6 (either sign): the objective is
+        # (almost) never exactly 0, so convergence has to come from the width test |sbis| < delta
+        r_ = rng.choice([-1, 1]) * rng.uniform(1e3, 1e6); c_ = rng.choice([1.0, 100.0, 1e6]); s_ = rng.choice([1.0, -1.0]) * pow2(rng, -40, -20)
+        ps = (-s_ * r_ * c_, s_ * c_, -s_ * r_, s_, 1.0, 0.0)
+        w_ = rng.choice([10.0, 1000.0, 0.5 * abs(r_)])
+        a, b = r_ - w_ * rng.choice([0.3, 1.0]), r_ + w_
+        if sgn(funcs(0)[0](a, *ps)) * sgn(funcs(0)[0](b, *ps)) < 0:
+            return 0, ps, a, b, mode
     if mode in ("rational",):
         fam = 0
         # numerator s (x - r1)(x^2 + c) expanded with dyadic data (exact coefficients), denominator positive on [a,b]
@@ -389,6 +402,21 @@ def run(ctx):
                     ctx.fail("brentq_zero_division_underflow" if stream == "underflow" else "rootfind_zero_division",
                              "ZeroDivisionError on a bracket with a sign change", zi, out, "a root or converged=False/RuntimeError")
                     continue
+                if (out[0] == 3 or (out[0] == 0 and not out[4])) and maxiter == 100 and xtol >= 1e-12 and rtol >= 4 * np.finfo(float).eps \
+                        and stream != "underflow":
+                    # exhausting 100 iterations is legitimate only if SciPy's own routine does so too (e.g. multiple roots)
+                    import scipy.optimize as so
+                    try:
+                        _r0, rr = getattr(so, solver_name)(F, a, b, args=tuple(ps), xtol=xtol, rtol=rtol, maxiter=maxiter,
+                                                           full_output=True, disp=False)
+                        sp_conv = bool(rr.converged)
+                    except Exception:
+                        sp_conv = False
+                    if sp_conv:
+                        ctx.fail("rootfind_no_convergence_simple_root", "no convergence within maxiter=100 on a valid bracket although "
+                                 "scipy.optimize.%s converges with the same xtol/rtol/maxiter (root %r, %d iterations)" % (solver_name, _r0, rr.iterations),
+                                 inp, out, {"scipy_root": _r0, "scipy_iterations": int(rr.iterations)})
+                        continue
                 if out[0] == 3 and not disp:
                     ctx.fail(kind_sfx or "rootfind_disp", "RuntimeError although disp=False", inp, out, None)
                 if out[0] == 0:
@@ -418,6 +446,52 @@ def run(ctx):
                          ctx.coq_eval(IMPORTS, "%s (obj %d%%nat %s) %s %s %s %s %s %s" % (
                              solver_name, inp["family"], flist(inp["params"]), fl(inp["a"]), fl(inp["b"]),
                              fl(inp["xtol"]), fl(inp["rtol"]), zl(inp["maxiter"]), blit(inp["disp"])), preamble=PREAMBLE))
+
+    # ================================================================ bisect / brentq, transcendental objectives (oracle only)
+    # simple irrational roots of magnitude 1e3..1e6 (both signs): the objective is never exactly 0, so the routines can stop
+    # only through their width test; SciPy's own routines with the same tolerances are the reference for "must converge"
+    import scipy.optimize as so
+    from numba import njit as _njit
+
+    @_njit
+    def t_exp(x, r, k, c):
+        return math.exp(k * (x - r)) - c
+
+    @_njit
+    def t_sin(x, r, k, c):
+        return (x - r) + 0.5 * math.sin(k * (x - r)) - c
+    for solver_name in ("bisect", "brentq"):
+        solver = getattr(RF, solver_name)
+        for _ in range(400 if thorough else 45):
+            J = rng.choice([t_exp, t_sin]); Fp = J.py_func
+            r_ = rng.choice([-1, 1]) * rng.uniform(1e3, 1e6)
+            k_ = rng.choice([1.0, 0.01, 1e-4]); c_ = rng.choice([0.7, 1.3, 0.1]) if J is t_exp else rng.choice([0.1, -0.3])
+            w_ = rng.choice([1.0, 30.0, 300.0]) / (k_ if J is t_exp else 1.0)
+            a, b = r_ - w_, r_ + w_
+            xtol = rng.choice([2e-12, 2e-12, 1e-12, 1e-9, 1e-6]); rtol = float(4 * np.finfo(float).eps); maxiter = 100
+            ps = (r_, k_, c_)
+            if sgn(Fp(a, *ps)) * sgn(Fp(b, *ps)) >= 0:
+                continue
+            out = call(solver, J, a, b, args=ps, xtol=xtol, rtol=rtol, maxiter=maxiter, disp=False)
+            inp = {"solver": solver_name, "objective": "exp(k(x-r))-c" if J is t_exp else "(x-r)+0.5sin(k(x-r))-c", "params": list(ps),
+                   "a": a, "b": b, "xtol": xtol, "rtol": rtol, "maxiter": maxiter, "disp": False, "mode": "transcendental"}
+            ctx.case((solver_name, "transc", ps, a, b, xtol), nontrivial=(out[0] == 0 and out[3] >= 2), sample={"call": inp, "impl": out})
+            ctx.count("%s:mode=transcendental(oracle only):%s" % (solver_name, "converged" if (out[0] == 0 and out[4]) else "not-converged"))
+            if out[0] == 0 and out[4]:
+                tol = (Fraction(xtol) + Fraction(rtol) * abs(Fraction(out[1]))) * (1 + Fraction(1, 10**9))
+                if not (a <= out[1] <= b) or not sign_change_near(Fp, ps, out[1], tol, a, b):
+                    ctx.fail("rootfind_no_sign_change_near_root", "converged=True but no sign change of f within xtol+rtol|r| of the returned root",
+                             inp, out, {"tol": float(tol)})
+            else:
+                try:
+                    _r0, rr = getattr(so, solver_name)(Fp, a, b, args=ps, xtol=xtol, rtol=rtol, maxiter=maxiter, full_output=True, disp=False)
+                    sp_conv = bool(rr.converged)
+                except Exception:
+                    sp_conv = False
+                if sp_conv or out[0] != 0:
+                    ctx.fail("rootfind_no_convergence_simple_root", "no convergence within maxiter=100 on a valid bracket with a simple root although "
+                             "scipy.optimize.%s converges with the same xtol/rtol/maxiter" % solver_name, inp, out,
+                             {"scipy_root": _r0 if sp_conv else None})
 
     # ================================================================ newton / halley / secant
     F2, J2 = funcs(2); F3, J3 = funcs(3); F4, J4 = funcs(4)
@@ -453,7 +527,7 @@ def run(ctx):
     for kind in ("newton", "halley", "secant"):
         cases, meta = [], []
         for _ in range(3000 if thorough else 220):
-            mode = rng.choice(["basin", "basin", "basin", "random", "flat", "exactroot", "fewiter"])
+            mode = rng.choice(["basin", "basin", "basin", "random", "flat", "exactroot", "fewiter", "special_start", "special_start"])
             s = rng.choice([1.0, -1.0]) * pow2(rng, -2, 2)
             r1 = rng.randrange(-48, 49) / 8.0
             c = rng.randrange(1, 17) / 4.0
@@ -467,6 +541,10 @@ def run(ctx):
                 ps = (rng.choice([1.0, -2.0, 0.0]), 0.0, rng.choice([1.0, 0.0]), 0.0); x0 = 0.0; root_known = None
             elif mode == "exactroot":
                 x0 = r1
+            elif mode == "special_start":   # starts at which a perturbation of the start can cancel: -1, 0, 1, -1e-4/(1+1e-4)
+                x0 = rng.choice([-1.0, -1.0, 0.0, 1.0, -1e-4 / (1 + 1e-4)])
+                r1 = x0 + rng.choice([-1, 1]) * rng.choice([0.03125, 0.125, 0.25])
+                ps = (-s * r1 * c, s * c, -s * r1, s); root_known = r1
             if kind == "halley" and rng.random() < 0.04:   # f = x^2 + 3 at x0 = 1: Halley denominator exactly 0
                 ps = (3.0, 0.0, 1.0, 0.0); x0 = 1.0; root_known = None; mode = "zerodiv"
             tol = rng.choice([1.48e-8, 1e-10, 1e-6, 1e-3, 1e-12])
@@ -514,7 +592,11 @@ def run(ctx):
                              inp, out, {"criterion_fired": fired})
                 if not cv and disp:
                     ctx.fail("newton_flag", "converged=False returned although disp=True", inp, out, None)
-                if cv and root_known is not None and mode in ("basin", "exactroot"):
+                if cv and root_known is not None and mode in ("basin", "exactroot", "special_start") and \
+                        abs(Fraction(r) - Fraction(root_known)) > max(Fraction(tol), Fraction(1, 10**6) * (1 + abs(Fraction(root_known)))):
+                    ctx.fail("newton_family_false_convergence", "converged=True from a start in the basin of the only (simple) real root, "
+                             "but the returned root is not within max(tol, 1e-6*(1+|r*|)) of it", inp, out, root_known)
+                elif cv and root_known is not None and mode in ("basin", "exactroot", "special_start"):
                     # simple root, start in its basin: within the requested accuracy
                     if abs(Fraction(r) - Fraction(root_known)) > Fraction(tol):
                         ctx.fail("newton_accuracy", "converged from a start in the basin of a simple root but |root - r*| > tol",
